@@ -5,10 +5,18 @@ import json, sys
 BASE_CMD = "cd /repo && GOFLAGS=-mod=mod GOPROXY=off GOSUMDB=off GOTOOLCHAIN=local go test -vet=off -count=1 ./..."
 
 # property -> (engine, technique, level text, level note, design ref)
+def seq(text, note, ref, tech="bounded-exhaustive enumeration of operation sequences executed on the real engine, compared with a reference model after every step"):
+    return ("seq", tech, text, note, ref)
+
 CHECKS = {
- "C01": ("seq", "bounded-exhaustive enumeration of operation sequences on the real engine vs a reference map",
-         "every operation sequence within the stated depth/deviation bound, under every listed configuration, is executed on the real code and every read path is compared with a reference map after every step",
-         "bounds: 2 keys, value classes S/E/L/X/B/M, depth<=4-5; shims replace sync/os by pass-through wrappers; no faults", "DESIGN.md §6 C01"),
+ "C01": seq("every operation sequence within the stated depth/deviation bound, under every listed configuration, is executed on the real code and every read path (Get, ListKeys, Fold, iterators both ways, Stat.KeyNum) is compared with a reference map after every step",
+            "bounds: 2 keys, value classes S/E/L/X/B/M, depth<=4-5; Merge scan order owned by the harness (both orders are symbols); shims replace sync/os by pass-through wrappers; no faults", "DESIGN.md §6 C01"),
+ "C02": seq("all (writer cfg, reader cfg) pairs x all operation sequences within the bound: the dump before Close is compared with the dump after Open on copies reopened under every reader configuration, twice; plus an exhaustive end-offset sweep (every reachable file end offset within a block, 3 shapes, both I/O back-ends, append + reopen)",
+            "bounds: depth 2-4, 12 configurations; quick tier sweeps a subset of the 32768 offsets, thorough all", "DESIGN.md §6 C02"),
+ "C05": seq("all pre-histories x all staging sequences within the bound with Batch.Get of every key after every staging step compared with a layered reference map; Commit result, reuse rejection, and the state after restart compared with the fold of the batch in issue order",
+            "bounds: 3 keys, pre-history <=2-3 ops, staging <=4-6 ops incl. overflow of DataFileSize mid-way", "DESIGN.md §6 C05"),
+ "C17": seq("C01's operation sequences; after every step Stat is compared with values recomputed independently from the data files decoded with the package's own sequential reader (live bytes, file count, key count, size-limit rule)",
+            "byte-level recomputation for Standard I/O only; DiskSize itself is not pinned by the statement", "DESIGN.md §6 C17"),
 }
 
 NOT_YET = {}
